@@ -363,6 +363,44 @@ def run(ck: Check) -> None:
                              {"entry_point": ep, "case": label, "spelling": spelling, "args": args[1:], "exit_status": rc, "library_accepts_named_file": want, "stderr_tail": err[-200:]},
                              f"cli-verify-path:{spelling}:{label}")
 
+    # what the files' *permissions* are, and a file called "-", mean nothing: the verdict is the library's verdict on the content of the files named
+    if "root-ok" in by_kind and "root-unsigned" in by_kind and "deleg-ok" in by_kind:
+        mjobs = []
+        for kind_, want in (("root-ok", True), ("deleg-ok", True), ("root-unsigned", False)):
+            i_, tb_, ub_, t_, u_ = by_kind[kind_]
+            for mi, (mt, mu) in enumerate([(0o664, 0o644), (0o666, 0o666), (0o444, 0o444), (0o600, 0o640), (0o777, 0o755)]):
+                pd = os.path.join(d, f"modes-{kind_}-{mi}")
+                os.makedirs(pd, exist_ok=True)
+                for nm, b, md in (("t.json", tb_, mt), ("u.json", ub_, mu)):
+                    pth = os.path.join(pd, nm)
+                    if os.path.exists(pth):
+                        os.chmod(pth, 0o644)
+                    open(pth, "wb").write(b)
+                    os.chmod(pth, md)
+                mjobs.append((kind_, ENTRY_POINTS[mi % len(ENTRY_POINTS)], "modes-%o-%o" % (mt, mu), ["verify-metadata", os.path.join(pd, "t.json"), os.path.join(pd, "u.json")], pd, want, None))
+        # a file literally named "-" (in the working directory), while standard input offers the opposite pair's content
+        for label, named, other, want in (("dash-rejected", by_kind["root-unsigned"], by_kind["root-ok"], False), ("dash-accepted", by_kind["root-ok"], by_kind["root-unsigned"], True)):
+            pd = os.path.join(d, "dash-" + label)
+            os.makedirs(pd, exist_ok=True)
+            open(os.path.join(pd, "t.json"), "wb").write(named[1])
+            open(os.path.join(pd, "-"), "wb").write(named[2])
+            for ep in ENTRY_POINTS:
+                mjobs.append((label, ep, "file-named-dash", ["verify-metadata", "t.json", "-"], pd, want, other[2]))
+        def run_in(j):
+            env = dict(os.environ, PYTHONPATH=REPO, PYTHONDONTWRITEBYTECODE="1", PYTHONIOENCODING="utf-8")
+            cmd = [sys.executable] + ([script] if j[1] == "script" else ["-m", "conda_content_trust" if j[1] == "modulePkg" else "conda_content_trust.cli"]) + j[3]
+            p = subprocess.run(cmd, env=env, cwd=j[4], input=j[6] if j[6] is not None else b"", stdout=subprocess.PIPE, stderr=subprocess.PIPE, timeout=120)
+            return p.returncode, p.stderr.decode("utf-8", "replace")
+        with ThreadPoolExecutor(max_workers=16) as ex:
+            mouts = list(ex.map(run_in, mjobs))
+        for (label, ep, what, args, _cwd, want, _inp), (rc, err) in zip(mjobs, mouts):
+            ck.evaluations += 1
+            ck.oracle_checks += 1
+            ck.count(f"verify-{what.split('-')[0]}:exit{rc}")
+            if (rc == 0) != want:
+                ck.violation("verify-metadata: the verdict reported is not the library's verdict on the content of the files named (file permissions / a file named '-' must not matter)",
+                             {"entry_point": ep, "case": label, "condition": what, "exit_status": rc, "library_accepts_named_files": want, "stderr_tail": err[-200:]}, f"cli-verify-cond:{what}:{label}")
+
     # signing subcommands exit zero only if they actually signed
     k = gen.key(3)
     good_doc = {"packages": {"a-1.0-0.tar.bz2": {"name": "a", "version": "1.0"}}, "packages.conda": {"b.conda": {"name": "b"}}}
@@ -418,6 +456,32 @@ def run(ck: Check) -> None:
             ck.mismatch_kinds[kk] = ck.mismatch_kinds.get(kk, 0) + 1
             if len(ck.mismatches) < 12:
                 ck.mismatches.append({"corr": "corr:cli-sign-artifacts/exit-status+file", "line": ln[:800], "impl": f"exit={rc}", "model": m[:300], "tag": kname + ":" + dname, "meta": {"stderr": err[-200:]}, "stdout_encoding": "utf-8"})
+    # sign-artifacts started from a terminal (standard input is a pty) with an operator who types "n" / nothing at whatever the tool might ask: exit status
+    # zero only if it actually signed
+    import pty
+    for typed in (b"n\n", b"\n", b"no\n", b"y\n"):
+        rf, kf = os.path.join(d, "tty-repodata.json"), os.path.join(d, "tty-key.txt")
+        open(rf, "wb").write(gen.oracle_bytes(good_doc))
+        open(kf, "w").write(k.seed.hex())
+        master, slave = pty.openpty()
+        try:
+            os.write(master, typed)
+            env = dict(os.environ, PYTHONPATH=REPO, PYTHONDONTWRITEBYTECODE="1", PYTHONIOENCODING="utf-8")
+            p = subprocess.run([sys.executable, "-m", "conda_content_trust", "sign-artifacts", rf, kf], env=env, cwd=d, stdin=slave, stdout=subprocess.PIPE, stderr=subprocess.PIPE, timeout=120)
+        finally:
+            os.close(master); os.close(slave)
+        ck.evaluations += 1
+        ck.oracle_checks += 1
+        ck.count(f"sign-from-terminal:exit{p.returncode}")
+        try:
+            import json as _json
+            o = _json.loads(open(rf, "rb").read())
+            signed_ok = set(o.get("signatures", {})) == {"a-1.0-0.tar.bz2", "b.conda"}
+        except Exception:  # noqa: BLE001
+            signed_ok = False
+        if p.returncode == 0 and not signed_ok:
+            ck.violation("sign-artifacts exited with status zero without having signed", {"stdin": "a terminal; typed " + repr(typed), "stdout": p.stdout.decode("utf-8", "replace")[-200:]}, "cli-sign-zero-unsigned:terminal")
+            break
     # gpg-sign without its optional dependency: must not exit zero, must not touch the file
     gf = os.path.join(d, "gpgsign.json")
     gb = gen.oracle_bytes(gen.envelope(gen.root_md([k], 1, [k], 1)))
